@@ -32,7 +32,51 @@ REF = dict(src=SRC_ROWS, mapped=H.expected_map(SRC_ROWS))
 TYPES = ("src", "mapped")
 
 
-def make_ctx(d, nchunks, fail=None, overwrite="if_broken"):
+class MPSrc(strax.Plugin):
+    """Source of the multiprocess setting (module level: it travels to the worker processes by pickle)."""
+    provides = ("src",)
+    depends_on = ()
+    dtype = H.ROW
+    data_kind = "src"
+    parallel = "process"
+    rechunk_on_save = False
+    NCH = 2
+    FAIL = None
+
+    def source_finished(self):
+        return True
+
+    def is_ready(self, chunk_i):
+        return chunk_i < self.NCH
+
+    def compute(self, chunk_i):
+        if self.FAIL == ("src", chunk_i):
+            raise H.HarnessFailure(f"src fails at chunk {chunk_i}")
+        c = CHUNKS[chunk_i]
+        return self.chunk(start=c["s"], end=c["e"], data=H.rows_to_array(c["rows"]))
+
+
+class MPMapped(strax.Plugin):
+    provides = ("mapped",)
+    depends_on = ("src",)
+    dtype = H.ROW
+    data_kind = "mapped"
+    parallel = "process"
+    rechunk_on_save = False
+    FAIL = None
+
+    def compute(self, src, start, end):
+        if self.FAIL is not None and self.FAIL[0] == "mapped" and start == CHUNKS[self.FAIL[1]]["s"]:
+            raise H.HarnessFailure(f"mapped fails at chunk {self.FAIL[1]}")
+        return H.rows_to_array(H.expected_map(H.array_to_rows(src)))
+
+
+def make_ctx(d, nchunks, fail=None, overwrite="if_broken", multiprocess=False):
+    if multiprocess:
+        MPSrc.NCH = nchunks
+        MPSrc.FAIL = MPMapped.FAIL = tuple(fail) if fail else None
+        return strax.Context(storage=[strax.DataDirectory(d, overwrite=overwrite)], register=[MPSrc, MPMapped],
+                             allow_multiprocess=True, allow_lazy=True, timeout=60)
     src = H.source("src", CHUNKS[:nchunks], fail_at=fail[1] if fail and fail[0] == "src" else None)
     mp = H.rowmap("mapped", "src", fail_at=fail[1] if fail and fail[0] == "mapped" else None, rechunk_on_save=False)
     st = strax.Context(storage=[strax.DataDirectory(d, overwrite=overwrite)], register=[src, mp],
@@ -40,8 +84,8 @@ def make_ctx(d, nchunks, fail=None, overwrite="if_broken"):
     return st
 
 
-def observe(d, nchunks):
-    st = make_ctx(d, nchunks)
+def observe(d, nchunks, multiprocess=False):
+    st = make_ctx(d, nchunks, multiprocess=multiprocess)
     res = {}
     for t in TYPES:
         try:
@@ -70,6 +114,7 @@ def run_make(d, setting, fault, plugin_fail=None):
     pid = os.fork()
     if pid == 0:
         os.close(r)
+        os.setsid()          # own process group: whatever this child leaves behind can be killed with it
         outcome = "returned"
         try:
             # tqdm guards its instance registry with a multiprocessing lock shared by every fork of this process tree: a child that
@@ -81,28 +126,60 @@ def run_make(d, setting, fault, plugin_fail=None):
             fsfault.STATE.reset(d, fault, md_first=setting.get("md_first", True))
             if setting.get("worker_timing") == "late":
                 fsfault.hold_workers()
+            if setting.get("multiprocess"):
+                # plugins and their savers run in worker processes: one event log for all of them; and this (os.fork'ed) process
+                # must be allowed to have process-pool children although it descends from a daemonic pool worker
+                import multiprocessing
+                multiprocessing.current_process()._config["daemon"] = False
+                fsfault.STATE.share(os.path.join(d, "..", os.path.basename(d) + ".fslog"))
             devnull = os.open(os.devnull, os.O_WRONLY)
             os.dup2(devnull, 1)
             os.dup2(devnull, 2)
             try:
-                st = make_ctx(d, setting["nchunks"], fail=plugin_fail)
+                st = make_ctx(d, setting["nchunks"], fail=plugin_fail, multiprocess=bool(setting.get("multiprocess")))
                 st.make("0", "mapped", processor=setting["processor"], max_workers=setting["max_workers"],
                         progress_bar=False)
             except BaseException as e:  # noqa
                 outcome = "raised:" + type(e).__name__
-            msg = json.dumps(dict(outcome=outcome, log=fsfault.STATE.log, fired=fsfault.STATE.fired))
+            log, fired = fsfault.STATE.log, fsfault.STATE.fired
+            if fsfault.STATE.shared:
+                log = fsfault.STATE.shared_log()
+                fired = os.path.exists(fsfault.STATE.shared + ".fired")
+                for x in (fsfault.STATE.shared, fsfault.STATE.shared + ".fired"):
+                    if os.path.exists(x):
+                        os.remove(x)
+            msg = json.dumps(dict(outcome=outcome, log=log, fired=fired))
             os.write(w, msg.encode())
         finally:
             os._exit(0)
     os.close(w)
+    # read until the child is gone: process-pool workers of a child that died may survive it and keep the pipe's write end open,
+    # so end-of-file may never come; they are killed with the child's process group afterwards
+    import select
+    import signal
     buf = b""
+    st = None
     while True:
-        b = os.read(r, 65536)
-        if not b:
+        ready, _, _ = select.select([r], [], [], 0.2)
+        if ready:
+            b = os.read(r, 65536)
+            if not b:
+                break
+            buf += b
+            continue
+        if st is None:
+            p_, s_ = os.waitpid(pid, os.WNOHANG)
+            if p_ == pid:
+                st = s_
+        elif not select.select([r], [], [], 0.3)[0]:
             break
-        buf += b
     os.close(r)
-    _, st = os.waitpid(pid, 0)
+    if st is None:
+        _, st = os.waitpid(pid, 0)
+    try:
+        os.killpg(pid, signal.SIGKILL)
+    except (ProcessLookupError, PermissionError):
+        pass
     if os.WIFEXITED(st) and os.WEXITSTATUS(st) == 17:
         return "died", None, True
     if not buf:
@@ -124,19 +201,19 @@ def scenario(arg):
     d = tempfile.mkdtemp(prefix="verif_c04_")
     try:
         outcome, log, fired = run_make(d, setting, fault, plugin_fail)
-        obs1 = observe(d, setting["nchunks"])
+        obs1 = observe(d, setting["nchunks"], bool(setting.get("multiprocess")))
         rec = dict(setting=setting, fault=fault, plugin_fail=plugin_fail, outcome=outcome.split(":")[0],
                    exc=outcome, fired=fired, obs=obs1, log=log, second=second)
         if second is not None:
             o2, log2, fired2 = run_make(d, setting, second, None)
             rec["outcome2"] = o2.split(":")[0]
             rec["fired2"] = fired2
-            rec["obs2"] = observe(d, setting["nchunks"])
+            rec["obs2"] = observe(d, setting["nchunks"], bool(setting.get("multiprocess")))
         # a later identical request, fault free
         o3, log3, _ = run_make(d, setting, None, None)
         rec["retry_outcome"] = o3.split(":")[0]
         rec["retry_exc"] = o3
-        rec["retry_obs"] = observe(d, setting["nchunks"])
+        rec["retry_obs"] = observe(d, setting["nchunks"], bool(setting.get("multiprocess")))
         rec["retry_log"] = log3
         return rec
     finally:
@@ -274,7 +351,10 @@ def settings(tier):
          dict(processor="threaded_mailbox", max_workers=None, nchunks=2),
          dict(processor="threaded_mailbox", max_workers=2, nchunks=2),
          # the same, with every pool worker finishing right after the saver found its future unfinished
-         dict(processor="threaded_mailbox", max_workers=2, nchunks=2, worker_timing="late")]
+         dict(processor="threaded_mailbox", max_workers=2, nchunks=2, worker_timing="late"),
+         # worker *processes*: process-parallel plugins and their savers inlined into the source (ParallelSourcePlugin); chunk files and
+         # per-chunk metadata files are written by the workers, collected by the parent at close
+         dict(processor="threaded_mailbox", max_workers=2, nchunks=2, multiprocess=True)]
     if tier == "thorough":
         S += [dict(processor="single_thread", max_workers=None, nchunks=3),
               dict(processor="threaded_mailbox", max_workers=2, nchunks=3)]
@@ -311,8 +391,13 @@ def run(chk):
         base = scenario((setting, None, None, None))
         if base["outcome"] != "returned" or any(v != "valid" for v in base["obs"].values()):
             raise V.MachineryError(f"fault-free make does not work in the harness: {base['exc']} {base['obs']}")
-        points = base["log"]
-        chk.extra.setdefault("fault_points", {})[f"{setting['processor']}/{setting['max_workers']}/{setting['nchunks']}" + ("/late-workers" if setting.get("worker_timing") else "")] = len(points)
+        points = []
+        for lk in base["log"]:
+            if tuple(lk) not in points:       # parent and worker processes may number the same label alike
+                points.append(tuple(lk))
+        sname = (f"{setting['processor']}/{setting['max_workers']}/{setting['nchunks']}" + ("/late-workers" if setting.get("worker_timing") else "")
+                 + ("/worker-processes" if setting.get("multiprocess") else ""))
+        chk.extra.setdefault("fault_points", {})[sname] = len(points)
         for j, (label, k) in enumerate(points):
             for mode in ("error", "crash_before", "crash_after"):
                 if chk.tier == "quick" and mode == "crash_before" and j > 0 and setting["processor"] == "single_thread":
@@ -345,7 +430,7 @@ def run(chk):
     rejected = validate_obs(chk, recs)
     chk.rule = ("fault point = every file-system operation (makedirs, open-truncate, write, rename, rmtree, remove) issued by "
                 "Context.make of a 2-type pipeline x {OSError, death before, death after} + plugin exceptions at every chunk, "
-                "for single-thread / threaded / threaded+pool; each followed by a fresh-context observation and a fault-free retry "
+                "for single-thread / threaded / threaded+thread pool (also with late workers) / threaded+process pool with inlined savers; each followed by a fresh-context observation and a fault-free retry "
                 "(thorough: a second fault during the retry). non-trivial = the fault fired and changed the outcome")
     chk.exhaustive = True
     for i, rec in enumerate(recs, 1):
@@ -356,7 +441,8 @@ def run(chk):
         if i in rejected:
             f = rec["fault"] or ("plugin", rec["plugin_fail"])
             clauses = which_clause(o)
-            proc = f"{rec['setting']['processor']}/workers={rec['setting']['max_workers']}" + ("/late-workers" if rec["setting"].get("worker_timing") else "")
+            proc = (f"{rec['setting']['processor']}/workers={rec['setting']['max_workers']}" + ("/late-workers" if rec["setting"].get("worker_timing") else "")
+                    + ("/worker-processes" if rec["setting"].get("multiprocess") else ""))
             fl = fault_label_class(f[0]) if rec["fault"] else f"plugin:{rec['plugin_fail'][0]}"
             mode = f[2] if rec["fault"] else "exception"
             if rec["second"]:
@@ -382,8 +468,8 @@ def run(chk):
 def validate_saver_traces(chk, recs):
     groups = {}
     for rec in recs:
-        if rec["plugin_fail"] is not None and rec["setting"]["processor"] == "single_thread":
-            pass
+        if rec["setting"].get("multiprocess"):
+            continue          # forked savers follow another protocol (per-chunk metadata files): judged at the P-level only
         for t, evs in saver_traces(rec).items():
             key = (rec["setting"]["processor"], rec["setting"]["max_workers"] == 2, rec["setting"]["nchunks"])
             groups.setdefault(key, []).append((evs, rec["setting"], rec["fault"] or rec["plugin_fail"], t))
